@@ -29,10 +29,11 @@ func runC15(c *kit.Ctx) {
 	comp := c.Anchor("region", "compressor", "compressCellblocks")
 	dec := c.Anchor("region", "compressor", "decompressCellblocks")
 	readN := c.Anchor("region", "", "readN")
-	readU := c.Anchor("region", "", "readUint32")
+	// readUint32 may have been inlined into its callers (readN(b, 4) + BigEndian.Uint32): optional
+	readU := p.Func("region", "", "readUint32")
 	sEnc := c.Anchor("compression/snappy", "snappyCodec", "Encode")
 	sDec := c.Anchor("compression/snappy", "snappyCodec", "Decode")
-	if comp == nil || dec == nil || readN == nil || readU == nil || sEnc == nil || sDec == nil {
+	if comp == nil || dec == nil || readN == nil || sEnc == nil || sDec == nil {
 		return
 	}
 	codec := "(" + kit.Module + "/compression.Codec)."
@@ -92,8 +93,22 @@ func runC15(c *kit.Ctx) {
 			// chunk input bounded by min(uncompressedLen, ChunkLen())
 			okChunk := false
 			for _, call := range kit.Calls(comp, kit.M("region", "", "newBuffer")) {
-				if m, ok := call.Common().Args[0].(*ssa.Call); ok && kit.CalleeName(m) == kit.M("region", "", "min") {
-					if cl, ok := m.Call.Args[1].(*ssa.Call); ok && kit.CalleeName(cl) == codec+"ChunkLen" && m.Call.Args[0] == ssa.Value(lenParam) {
+				arg := call.Common().Args[0]
+				if cv, ok := arg.(*ssa.Convert); ok {
+					arg = cv.X
+				}
+				// the package's min helper or the builtin, either argument order
+				if m, ok := arg.(*ssa.Call); ok && (kit.CalleeName(m) == kit.M("region", "", "min") || kit.CalleeName(m) == "builtin.min") && len(m.Call.Args) == 2 {
+					hasLen, hasChunk := false, false
+					for _, a := range m.Call.Args {
+						if a == ssa.Value(lenParam) {
+							hasLen = true
+						}
+						if cl, ok := a.(*ssa.Call); ok && kit.CalleeName(cl) == codec+"ChunkLen" {
+							hasChunk = true
+						}
+					}
+					if hasLen && hasChunk {
 						okChunk = true
 					}
 				}
@@ -101,14 +116,13 @@ func runC15(c *kit.Ctx) {
 			c.Check(okChunk, comp, "chunk-size", comp.Pos(), "chunks are at most min(uncompressedLen, codec.ChunkLen()) bytes", "the chunk buffer is no longer bounded by the codec's chunk length")
 		}
 		// reader
-		rus := kit.Calls(dec, kit.M("region", "", "readUint32"))
-		rns := kit.Calls(dec, kit.M("region", "", "readN"))
+		rus, rusVals, rns := u32Reads(dec)
 		dcs := kit.Calls(dec, codec+"Decode")
 		if len(rus) != 2 || len(rns) != 1 || len(dcs) != 1 {
 			c.Unk(dec, "reader-shape", dec.Pos(), "decompressCellblocks no longer has the shape: block length, then chunk length + chunk + Decode")
 		} else {
-			blockLen := kit.ExtractOf(rus[0].Value(), 0)
-			chunkLen := kit.ExtractOf(rus[1].Value(), 0)
+			blockLen := rusVals[0]
+			chunkLen := rusVals[1]
 			okOrder := kit.Dominates(rus[0].(ssa.Instruction), rus[1].(ssa.Instruction)) && kit.Dominates(rus[1].(ssa.Instruction), rns[0].(ssa.Instruction)) && kit.Dominates(rns[0].(ssa.Instruction), dcs[0].(ssa.Instruction))
 			nArg := rns[0].Common().Args[1]
 			if cv, ok := nArg.(*ssa.Convert); ok {
@@ -138,6 +152,8 @@ func runC15(c *kit.Ctx) {
 						return
 					}
 					x, y := kit.Root(cmp.X), kit.Root(cmp.Y)
+					swapOp := map[token.Token]token.Token{token.LSS: token.GTR, token.GTR: token.LSS, token.LEQ: token.GEQ, token.GEQ: token.LEQ, token.EQL: token.EQL, token.NEQ: token.NEQ}
+					defer func() { _ = swapOp }()
 					inWeb := func(v ssa.Value) bool {
 						if v == ssa.Value(sum) {
 							return true
@@ -156,6 +172,11 @@ func runC15(c *kit.Ctx) {
 							return true
 						}
 						return false
+					}
+					if !inWeb(x) && inWeb(y) {
+						// blockLen OP sum: bring the running sum to the left
+						x, y = y, x
+						cmp.Op = swapOp[cmp.Op]
 					}
 					if cmp.Op == token.LSS && inWeb(x) && kit.Same(y, blockLen) {
 						// the chunk is read only on the true edge of this test
@@ -189,7 +210,7 @@ func runC15(c *kit.Ctx) {
 
 	// ---- R2 ---------------------------------------------------------------
 	c.StartRule("R2", "every reader error is checked and returned", 5)
-	for _, fn := range []*ssa.Function{dec, readU} {
+	for _, fn := range nonNilFuncs(dec, readU) {
 		kit.Instrs(fn, func(in ssa.Instruction) {
 			call, ok := in.(*ssa.Call)
 			if !ok {
@@ -250,7 +271,7 @@ func runC15(c *kit.Ctx) {
 	{
 		eng := bounds.New(p)
 		eng.MarkNonNegParams(readN)
-		for _, fn := range []*ssa.Function{dec, readN, readU, sDec, sEnc} {
+		for _, fn := range nonNilFuncs(dec, readN, readU, sDec, sEnc) {
 			for _, o := range eng.Obligations(fn) {
 				if o.OK {
 					c.OK(fn, o.Kind+" "+o.Text, posOf(o.Instr), o.Why)
@@ -312,11 +333,14 @@ func runC15(c *kit.Ctx) {
 						}
 						sv = kit.Root(cv.X)
 					}
-					ex, ok := sv.(*ssa.Extract)
-					if !ok || ex.Index != 0 {
-						continue
+					_, declVals, _ := u32Reads(dec)
+					isDecl := false
+					for _, dv := range declVals {
+						if dv == sv {
+							isDecl = true
+						}
 					}
-					if call, ok := ex.Tuple.(*ssa.Call); ok && kit.StaticCallee(call) == readU {
+					if isDecl {
 						blockLens = append(blockLens, side)
 						other := bo.Y
 						if side == bo.Y {
@@ -396,4 +420,61 @@ func runC15(c *kit.Ctx) {
 			c.Check(good, fn, "append-and-length", r.Pos(), "returns append(dst, chunk...) and uint32(len(chunk)) of the same chunk", "the codec reports a length that is not the length of what it appended to dst")
 		})
 	}
+}
+
+func nonNilFuncs(fs ...*ssa.Function) []*ssa.Function {
+	var out []*ssa.Function
+	for _, f := range fs {
+		if f != nil {
+			out = append(out, f)
+		}
+	}
+	return out
+}
+
+// u32Reads finds the places where fn reads a 4-byte big-endian length off its input: calls of the
+// readUint32 helper, or readN(b, 4) followed by binary.BigEndian.Uint32 of the bytes read. It returns
+// the instruction of each read (for ordering), the length value, and the remaining readN calls.
+func u32Reads(fn *ssa.Function) (at []ssa.CallInstruction, vals []ssa.Value, otherReadN []ssa.CallInstruction) {
+	for _, ci := range kit.Calls(fn, kit.M("region", "", "readUint32")) {
+		at = append(at, ci)
+		vals = append(vals, kit.ExtractOf(ci.Value(), 0))
+	}
+	used := map[ssa.CallInstruction]bool{}
+	kit.Instrs(fn, func(in ssa.Instruction) {
+		call, ok := in.(*ssa.Call)
+		if !ok || !strings.HasSuffix(kit.CalleeName(call), "bigEndian).Uint32") || len(call.Call.Args) == 0 {
+			return
+		}
+		src := kit.Root(call.Call.Args[len(call.Call.Args)-1])
+		ex, ok := src.(*ssa.Extract)
+		if !ok || ex.Index != 0 {
+			return
+		}
+		rn, ok := ex.Tuple.(*ssa.Call)
+		if !ok || kit.CalleeName(rn) != kit.M("region", "", "readN") {
+			return
+		}
+		if k, ok := kit.ConstInt(rn.Call.Args[1]); !ok || k != 4 {
+			return
+		}
+		used[rn] = true
+		at = append(at, rn)
+		vals = append(vals, call)
+	})
+	for _, ci := range kit.Calls(fn, kit.M("region", "", "readN")) {
+		if !used[ci] {
+			otherReadN = append(otherReadN, ci)
+		}
+	}
+	// order by position in the function (dominance order for the confirmed shape)
+	for i := 0; i < len(at); i++ {
+		for j := i + 1; j < len(at); j++ {
+			if kit.Dominates(at[j].(ssa.Instruction), at[i].(ssa.Instruction)) {
+				at[i], at[j] = at[j], at[i]
+				vals[i], vals[j] = vals[j], vals[i]
+			}
+		}
+	}
+	return
 }
